@@ -102,6 +102,20 @@ def rule_stack(ctx):
             ctx.holds('R1', 'stack(align=%s): _get_axes on the joined list, error re-raised' % align)
             ctx.holds('R2', 'stack(align=%s): joined list normalised by dimension name' % align)
             ctx.holds('R3', 'stack(align=%s): new axis first on both sides' % align)
+        # _get_axes is written for broadcasting: it lets every size-1 axis through without comparing its label.  stack() positions the inputs
+        # side by side, so two inputs with different labels on a singleton dimension must be refused as well (unless aligned first)
+        ga_fn = ctx.fn(AL + '_get_axes')
+        evg = run(ctx, ga_fn, mode='fork')
+        escape = any(exc_name(q.value) == 'ValueError' and any(a[0] == 'cmp' and a[1] == '==' and a[3] == const(1) and 'size' in T.show(a[2]) and pol is False for a, pol in q.guards)
+                     for q in raise_paths(evg))
+        if escape:
+            own = [q for q in raise_paths(ev) if exc_name(q.value) == 'ValueError' and any(
+                any(x[0] == 'call' and T.call_name(x) == '_get_axes' for x in T.subterms(a)) and any(x[0] == 'cmp' and x[1] in ('==', '!=') for x in T.subterms(a)) for a, pol in q.guards)]
+            if own:
+                ctx.holds('R1', 'stack(align=%s): labels of singleton axes compared as well' % align)
+            else:
+                ctx.violated('R1', fi, 'singleton axes not compared', 'the only alignment check of stack() is _get_axes(), which skips every size-1 axis (axis.size == 1 or ...): inputs that carry '
+                             'different labels on a singleton dimension (x=[\'a\'] and x=[\'b\']) are stacked positionally and both slices get the first input\'s label', node=fi.node)
         handlers = [p for p in raise_paths(ev) if any(a[0] == 'tryfail' for a, _ in p.guards)]
         if not handlers or any(exc_name(p.value) != 'ValueError' for p in handlers):
             ctx.violated('R1', fi, 'except ValueError', 'misaligned inputs must raise ValueError')
